@@ -47,7 +47,9 @@ PARAM = {"oneOf": [
              "type": "object", "required": ["name", "x", "y"], "properties": {"name": {"type": "string"}}}}}},
      ]}]}
 SCHEMA = {"type": "object", "required": ["settings", "routines"], "properties": {
-    "settings": {"type": "object", "required": ["performance_progress_list_var_name", "dungeon_mode_constants"]},
+    "settings": {"type": "object", "required": ["performance_progress_list_var_name", "dungeon_mode_constants"], "properties": {
+        "performance_progress_list_var_name": {"type": "string"},
+        "dungeon_mode_constants": {"type": "object", "required": ["open", "closed", "request", "open_request"]}}},
     "routines": {"type": "array", "items": {"type": "object", "required": ["type", "ops"], "properties": {
         "type": {"enum": ["COROUTINE", "GENERIC", "ACTOR", "OBJECT", "PERFORMER"]},
         "name": {"type": "string"}, "target_id": {"type": ["integer", "string"]},
@@ -138,6 +140,50 @@ def check_compile_output(acc, doc, c, inp):
                 acc.violation(gsig(kindsig, name), {"routine": ri, "expected": [name, want], "got": [jo["opcode"], got]}, inp)
                 return False
     return True
+
+
+def settings_cases(acc, root, text):
+    """Settings documents that lack a documented key: whenever the compile command nevertheless exits 0, what it printed must have
+    the documented structure and must be accepted by the decompile command (the complete document is the control)."""
+    import copy
+    import jsonschema
+    os.makedirs(root, exist_ok=True)
+    with open(os.path.join(root, "main.exps"), "w", encoding="utf-8") as f:
+        f.write(text)
+    variants = [("complete", SETTINGS)]
+    for k in ("open", "closed", "request", "open_request"):
+        v = copy.deepcopy(SETTINGS)
+        del v["settings"]["dungeon_mode_constants"][k]
+        variants.append(("without-" + k, v))
+    v = copy.deepcopy(SETTINGS); del v["settings"]["dungeon_mode_constants"]; variants.append(("without-dungeon_mode_constants", v))
+    v = copy.deepcopy(SETTINGS); del v["settings"]["performance_progress_list_var_name"]; variants.append(("without-ppl", v))
+    v = copy.deepcopy(SETTINGS); v["settings"]["dungeon_mode_constants"] = {"open": "A"}; variants.append(("only-open", v))
+    for vname, st in variants:
+        with open(os.path.join(root, "settings.json"), "w") as f:
+            json.dump(st, f)
+        inp = {"name": "settings:" + vname, "text": text, "settings_document": st}
+        acc.announce("compile-cli-settings", inp)
+        p = run_cli("explorerscript.cli.compile", ["main.exps", "--settings", "settings.json"], root)
+        acc.count("settings_variants_run")
+        if vname == "complete" and p.returncode != 0:
+            acc.violation("exit-status|complete-settings-refused", {"status": p.returncode, "stderr": p.stderr[-300:]}, inp)
+            continue
+        if p.returncode != 0:
+            acc.count("incomplete_settings_refused")
+            if p.stdout.strip():
+                acc.violation("output-on-failure", {"stdout": p.stdout[:200]}, inp)
+            continue
+        try:
+            doc = json.loads(p.stdout)
+            jsonschema.validate(doc, SCHEMA)
+        except Exception as e:
+            acc.violation(gsig("exit-0-without-the-documented-structure", vname), {"error": str(e)[:300], "stdout": p.stdout[:200]}, inp)
+            continue
+        with open(os.path.join(root, "ssb.json"), "w") as f:
+            f.write(p.stdout)
+        d = run_cli("explorerscript.cli.decompile", ["ssb.json"], root)
+        if d.returncode != 0:
+            acc.violation(gsig("compile-output-refused-by-decompile", vname), {"status": d.returncode, "stderr": d.stderr[-300:]}, inp)
 
 
 def compile_case(acc, root, main_rel, lookup_rel, prog_for_ref, macros_for_ref, inp, structured, rnd):
@@ -388,6 +434,7 @@ def run_shard(shard, acc):
             with open(os.path.join(root, "main.exps"), "w", encoding="utf-8") as f:
                 f.write(fixed)
             compile_case(acc, root, "main.exps", [], t2a.parse_program(fixed), None, {"name": "fixed", "text": fixed, "structured": True}, structured=True, rnd=rnd)
+            settings_cases(acc, os.path.join(base, "settings"), fixed)
             for cfg in cfgs:
                 for name, prog in exps_workload({"kind": "random", "seed": shard["seed"] + len(cfg), "n": shard["n"], "depth": 2, "cfg": cfg}):
                     root = os.path.join(base, f"c{i}")
